@@ -48,11 +48,41 @@ func ghost_rd_at(r io.Reader, i int) byte { panic("ghost") }
 func ghost_ioerr() error                  { panic("ghost") } // the first transport failure of this call, if any
 func ghost_old_ioerr() error              { panic("ghost") }
 
-// maskBytes uses unsafe word-at-a-time XOR: its contract is assumed (see the evidence's trusted base)
-//@ trusted maskBytes
+// maskBytes uses unsafe word-at-a-time XOR. The key position it returns is verified against its body: the unsafe memory
+// accesses are abstracted (an address is an arbitrary number, a load through an unsafe pointer an arbitrary value, a
+// store through one makes the elements of b arbitrary - that such a store stays inside b is assumed), everything that
+// decides the position (which path is taken, how far each byte loop runs, what is added to pos) is the real code.
+//@ unsafe-abstract maskBytes b
 //@ assigns maskBytes b[*]
-//@ ensures maskBytes C14.mask.pos
+//@ ensures maskBytes C14.mask.pos C13.mask.pos
 func ens_maskBytes(pos int, b []byte, ret0 int) bool { return ret0 == (pos+len(b))&3 }
+
+// small buffers: one octet and one key position per round
+//@ invariant maskBytes 0
+func inv_maskBytes0(pos, old_pos int, b []byte, rangeindex int) bool {
+	return rangeindex >= -1 && rangeindex < len(b) && pos == old_pos+rangeindex+1
+}
+
+// up to the word boundary: n octets, n key positions
+//@ invariant maskBytes 1
+func inv_maskBytes1(pos, old_pos int, n int, rangeindex int) bool {
+	return rangeindex >= -1 && rangeindex < n && pos == old_pos+rangeindex+1
+}
+
+//@ unroll-complete maskBytes 2 9
+
+// whole words: the key position does not move (a word is a multiple of the key length)
+//@ invariant maskBytes 3
+func inv_maskBytes3(i, n int) bool { return i >= 0 && i <= n && n >= 0 && n <= 1<<40 && i&7 == 0 && n&7 == 0 }
+
+//@ decreases maskBytes 3
+func dec_maskBytes3(i, n int) int { return n - i }
+
+// the rest: what is left of b and the key position together still account for the whole buffer, modulo the key length
+//@ invariant maskBytes 4
+func inv_maskBytes4(pos, old_pos int, b, old_b []byte, rangeindex int) bool {
+	return rangeindex >= -1 && rangeindex < len(b) && (pos+len(b)-rangeindex-1)&3 == (old_pos+len(old_b))&3
+}
 
 // (the engine models maskBytes itself as the RFC 6455 5.3 function: octet i becomes octet i XOR key[(pos+i) mod 4];
 // that model is trusted, see the evidence's trusted base)
